@@ -416,3 +416,18 @@ Proof.
     + apply orb_true_iff. right. apply str_mem_In. left. reflexivity.
   - apply forallb_str_mem_self.
 Qed.
+
+(* ------------------------------------------------------------------ a path that is not literally the key of an existing file is
+   never committed: an alias spelling ("data//f", "data/./f", "data/x/../f" name the file data/f only to a filesystem) makes
+   the commit step a no-op -- independently of anything else about the table (there is no schema in this model at all) *)
+Lemma commit_alias_rejected : forall h sid newdata newmans kept lname lmt expire mn es mt e,
+  In (mn, es, mt) newmans -> In e es ->
+  has_key (resolve e) (h_store h) = false -> str_mem (resolve e) (map (fun q => data_key (fst q)) newdata) = false ->
+  hstep h (HCommit sid newdata newmans kept lname lmt expire) = h.
+Proof.
+  intros h sid newdata newmans kept lname lmt expire mn es mt e Hm He K1 K2. cbn [hstep].
+  destruct (valid_commit h newdata newmans kept lname lmt) eqn:V; [|reflexivity]. exfalso.
+  unfold valid_commit in V. cbv zeta in V. apply andb_true_iff in V. destruct V as [V _]. apply andb_true_iff in V. destruct V as [_ V3].
+  rewrite forallb_forall in V3. specialize (V3 _ Hm). cbn [fst snd] in V3. rewrite forallb_forall in V3. specialize (V3 e He).
+  apply andb_true_iff in V3. destruct V3 as [_ V3]. rewrite K1, K2 in V3. discriminate.
+Qed.
